@@ -127,6 +127,17 @@ class Collector:
         self.rounds += out.rounds
         for c in out.classes:
             self.classes[c] += 1
+        if isinstance(case, dict):  # how often the unusual-but-legal input forms are actually generated (any check)
+            for sub_case in (case, case.get("A"), case.get("B")):
+                if not isinstance(sub_case, dict):
+                    continue
+                if sub_case.get("alias_axes"):
+                    self.classes["input:aliased-axes"] += 1
+                rw = sub_case.get("reward")
+                if isinstance(rw, dict) and rw.get("inttype"):
+                    self.classes["input:int-typed-rewards"] += 1
+                if isinstance(rw, dict) and rw.get("npfloat"):
+                    self.classes["input:np.float64-rewards"] += 1
         if out.aborted:
             self.aborted[out.aborted] += 1
         if out.known:
